@@ -22,7 +22,8 @@ ASSUMPTIONS = [
     "fixture internals follow the fixtures library (a failing _setUp runs the fixture's own cleanups immediately)",
 ]
 
-PROG = P.programs(nonexc=True, multi=True, patch=True, fixture=True, expect=True, force=True, cleanup_depth=3, p_raise=4, extras=True)
+PROG = P.programs(nonexc=True, multi=True, patch=True, fixture=True, expect=True, force=True, cleanup_depth=3, p_raise=4, extras=True,
+                  rets=True, bursts=True, per_run=True)
 CASE = st.fixed_dictionaries({"prog": PROG, "runs": st.sampled_from([2, 2, 3]), "flavour": st.sampled_from(["ext", "real", "py27"])})
 
 
@@ -43,6 +44,7 @@ def summarize(obs):
 def run_case(spec):
     prog = spec["prog"]
     vs = []
+    per_run = "'runs'" in repr(prog)        # some actions happen only in certain runs of the instance
     model = P.Model(prog).run()
     live = P.Live()
     case = None
@@ -51,6 +53,9 @@ def run_case(spec):
     for n in range(spec["runs"]):
         del live.log[:]
         live.handler_calls[:] = []
+        live.run_no = n
+        if per_run:
+            model = P.Model(prog, run_no=n).run()
         obs = R.run_program(prog, spec["flavour"], case=case, live=live)
         case = obs["case"]
         log = list(live.log)
@@ -69,7 +74,16 @@ def run_case(spec):
         if getattr(case, "_cleanups", None):
             vs.append(V("restore", "cleanups-left", "%d cleanups still registered after run %d" % (len(case._cleanups), n)))
         summ = summarize(obs)
-        if first is None:
+        if per_run:
+            # every run is judged against its own reference: nothing of an earlier run may linger
+            admissible, propagates = model.admissible()
+            admissible = {R.degrade(o, spec["flavour"]) for o in admissible}
+            if not vs and (len(summ[0]) != 1 or summ[0][0] not in admissible):
+                vs.append(V("rerun", "stale-outcome", "run %d reported %r, its own reference admits %r (raised in this run: %r)" % (
+                    n, summ[0], sorted(admissible), [r["kind"] for r in model.raised])))
+            if not vs and (obs["raised"] is not None) != propagates:
+                vs.append(V("rerun", "stale-propagation", "run %d: run() raised %r, reference says propagates=%r" % (n, obs["raised"], propagates)))
+        elif first is None:
             first = (log, summ, repr(type(obs["raised"])))
         elif (log, summ, repr(type(obs["raised"]))) != first and not vs:
             vs.append(V("rerun", "differs", "run %d differs from run 0: outcome/markers %r vs %r" % (n, summ, first[1])))
@@ -91,7 +105,7 @@ def run_case(spec):
     fx = "fixture" in repr(prog)
     nt = late or fx or (bool(model.raised) and any(x[0] == "C" for x in model.log))
     return Case(vs, nt, ["runs=%d" % spec["runs"], "late-cleanup" if late else "", "fixture" if fx else "",
-                         "patch" if "'patch'" in repr(prog) else "", "raises=%d" % min(len(model.raised), 4)],
+                         "patch" if "'patch'" in repr(prog) else "", "per-run-actions" if per_run else "", "burst" if "cleanup_burst" in repr(prog) else "", "raises=%d" % min(len(model.raised), 4)],
                 {"log": model.log[:12]})
 
 
